@@ -807,3 +807,9 @@ def fields_read(fn, of_type_suffix):
             if isinstance(e, dict) and "f" in e and norm(e.get("of", "")).lstrip("&").endswith(of_type_suffix):
                 out.setdefault(e["f"], []).append(b)
     return out
+
+
+def statics_used(fn):
+    """Def paths of static items whose address is taken in the body."""
+    import json as _json
+    return {norm(m) for m in re.findall(r'"static": "([^"]+)"', _json.dumps(fn.m["blocks"]))}
